@@ -2,13 +2,19 @@
 //
 // It re-reads the working tree on every run and emits, under <out>/:
 //
-//	Consts.lean  – named constants (incl. iota) as Int definitions
-//	Funcs.lean   – a restricted subset of pure Go functions as Lean functions over Int/Bool
-//	Facts.lean   – structural fact tables (call sites, atomic write sites, package-level vars)
+//	Consts.lean      – named constants (incl. iota) as Int / Bool / String definitions
+//	Funcs.lean       – the original small set of pure Go functions (linked by the model driver)
+//	<Pkg>.lean       – one file per Go package (Secs1, Hsms, Secs2, Sml, Wire, …) with the structures and
+//	                   functions translated from that package (imports the files of the packages it uses)
+//	Facts.lean       – structural fact tables (call sites, atomic write sites, package-level vars)
+//	Provenance.lean  – ownership tables (provenance.go)
+//	status.json      – per function: "ok" or "untranslatable: <construct> at <file:line>"
 //
-// The subset is deliberately tiny (see DESIGN.md §1.2). Anything outside it makes the function
-// "untranslatable": it is reported in status.json and NOT emitted, so the theorems that mention it
-// stop building and the check falls back to differential testing for that function.
+// THE ACCEPTED SUBSET OF GO IS DOCUMENTED AT THE TOP OF translate.go; the meaning of the emitted
+// vocabulary (Go.wrapU, Go.slice?, Go.foldB, …) is lean/GoSecs/GoPrelude.lean. Anything outside the subset
+// makes the function "untranslatable": it is reported in status.json with the function name and the
+// offending construct and NOT emitted, so the theorems that mention it stop building and the check
+// reports the broken tie (and falls back to differential testing for a failing input).
 package main
 
 import (
@@ -72,7 +78,21 @@ func (f *fakeImporter) Import(path string) (*types.Package, error) {
 
 var imp = &fakeImporter{cache: map[string]*types.Package{}}
 
+var pkgCache = map[string]*pkgInfo{}
+var repoRoot string
+
 func loadPkg(repo, rel string) (*pkgInfo, error) {
+	if p, ok := pkgCache[repo+"\x00"+rel]; ok {
+		return p, nil
+	}
+	p, err := loadPkg0(repo, rel)
+	if err == nil {
+		pkgCache[repo+"\x00"+rel] = p
+	}
+	return p, err
+}
+
+func loadPkg0(repo, rel string) (*pkgInfo, error) {
 	dir := filepath.Join(repo, rel)
 	fset := token.NewFileSet()
 	ents, err := os.ReadDir(dir)
@@ -100,9 +120,10 @@ func loadPkg(repo, rel string) (*pkgInfo, error) {
 		files = append(files, f)
 	}
 	info := &types.Info{
-		Types: map[ast.Expr]types.TypeAndValue{},
-		Defs:  map[*ast.Ident]types.Object{},
-		Uses:  map[*ast.Ident]types.Object{},
+		Types:      map[ast.Expr]types.TypeAndValue{},
+		Defs:       map[*ast.Ident]types.Object{},
+		Uses:       map[*ast.Ident]types.Object{},
+		Selections: map[*ast.SelectorExpr]*types.Selection{},
 	}
 	conf := types.Config{Importer: imp, Error: func(error) {}, DisableUnusedImportCheck: true}
 	pkg, _ := conf.Check("github.com/arloliu/go-secs/v2/"+rel, fset, files, info)
@@ -143,393 +164,6 @@ func intLit(s string) string {
 		return "(" + s + ")"
 	}
 	return s
-}
-
-// ---------- pure functions ----------
-
-type untranslatable struct{ why string }
-
-func bail(format string, a ...any) { panic(untranslatable{fmt.Sprintf(format, a...)}) }
-
-type tr struct {
-	p     *pkgInfo
-	nres  int
-	named []string // named results
-}
-
-func (t *tr) leanType(ty types.Type) string {
-	switch u := ty.Underlying().(type) {
-	case *types.Basic:
-		switch {
-		case u.Info()&types.IsInteger != 0:
-			return "Int"
-		case u.Info()&types.IsBoolean != 0:
-			return "Bool"
-		}
-	}
-	bail("unsupported type %s", ty)
-	return ""
-}
-
-func intBits(ty types.Type) (bits int, signed bool, ok bool) {
-	b, isB := ty.Underlying().(*types.Basic)
-	if !isB || b.Info()&types.IsInteger == 0 {
-		return 0, false, false
-	}
-	switch b.Kind() {
-	case types.Int8:
-		return 8, true, true
-	case types.Int16:
-		return 16, true, true
-	case types.Int32:
-		return 32, true, true
-	case types.Int64, types.Int:
-		return 64, true, true
-	case types.Uint8:
-		return 8, false, true
-	case types.Uint16:
-		return 16, false, true
-	case types.Uint32:
-		return 32, false, true
-	case types.Uint64, types.Uint, types.Uintptr:
-		return 64, false, true
-	case types.UntypedInt:
-		return 0, true, true
-	}
-	return 0, false, false
-}
-
-func (t *tr) expr(e ast.Expr) string {
-	if tv, ok := t.p.info.Types[e]; ok && tv.Value != nil {
-		switch tv.Value.Kind() {
-		case constant.Int:
-			return intLit(tv.Value.ExactString())
-		case constant.Bool:
-			if constant.BoolVal(tv.Value) {
-				return "true"
-			}
-			return "false"
-		}
-	}
-	switch x := e.(type) {
-	case *ast.ParenExpr:
-		return "(" + t.expr(x.X) + ")"
-	case *ast.Ident:
-		switch x.Name {
-		case "true", "false":
-			return x.Name
-		}
-		obj := t.p.info.Uses[x]
-		if obj == nil {
-			obj = t.p.info.Defs[x]
-		}
-		if _, ok := obj.(*types.Var); ok {
-			return x.Name
-		}
-		bail("identifier %s is not a local variable or constant", x.Name)
-	case *ast.BasicLit:
-		if x.Kind == token.INT {
-			tv := t.p.info.Types[e]
-			if tv.Value != nil {
-				return intLit(tv.Value.ExactString())
-			}
-		}
-		bail("literal %s", x.Value)
-	case *ast.UnaryExpr:
-		switch x.Op {
-		case token.NOT:
-			return "(!" + t.expr(x.X) + ")"
-		case token.SUB:
-			return "(-" + t.expr(x.X) + ")"
-		}
-		bail("unary %s", x.Op)
-	case *ast.BinaryExpr:
-		a, b := t.expr(x.X), t.expr(x.Y)
-		switch x.Op {
-		case token.ADD:
-			return "(" + a + " + " + b + ")"
-		case token.SUB:
-			return "(" + a + " - " + b + ")"
-		case token.MUL:
-			return "(" + a + " * " + b + ")"
-		case token.QUO:
-			return "(Int.tdiv " + a + " " + b + ")"
-		case token.REM:
-			return "(Int.tmod " + a + " " + b + ")"
-		case token.EQL:
-			return "(" + a + " == " + b + ")"
-		case token.NEQ:
-			return "(" + a + " != " + b + ")"
-		case token.LSS:
-			return "(decide (" + a + " < " + b + "))"
-		case token.LEQ:
-			return "(decide (" + a + " ≤ " + b + "))"
-		case token.GTR:
-			return "(decide (" + a + " > " + b + "))"
-		case token.GEQ:
-			return "(decide (" + a + " ≥ " + b + "))"
-		case token.LAND:
-			return "(" + a + " && " + b + ")"
-		case token.LOR:
-			return "(" + a + " || " + b + ")"
-		}
-		bail("binary %s", x.Op)
-	case *ast.CallExpr:
-		// conversions T(x) between integer types only
-		if tv, ok := t.p.info.Types[x.Fun]; ok && tv.IsType() && len(x.Args) == 1 {
-			bits, signed, ok := intBits(tv.Type)
-			_, _, okArg := intBits(t.p.info.Types[x.Args[0]].Type)
-			if ok && okArg {
-				a := t.expr(x.Args[0])
-				if signed {
-					return fmt.Sprintf("(Go.wrapS %d %s)", bits, a)
-				}
-				return fmt.Sprintf("(Go.wrapU %d %s)", bits, a)
-			}
-		}
-		bail("call expression")
-	}
-	bail("expression %T", e)
-	return ""
-}
-
-// stmts translates a statement list in continuation style. k is the Lean text of "what happens
-// after this list falls through" ("" = falling through is impossible / not allowed).
-func (t *tr) stmts(list []ast.Stmt, k string, ind string) string {
-	if len(list) == 0 {
-		if k == "" {
-			bail("control reaches end of function without return")
-		}
-		return k
-	}
-	rest := func() string { return t.stmts(list[1:], k, ind) }
-	switch s := list[0].(type) {
-	case *ast.ReturnStmt:
-		if len(s.Results) == 0 {
-			if len(t.named) == 0 {
-				bail("bare return")
-			}
-			return "(" + strings.Join(t.named, ", ") + ")"
-		}
-		var parts []string
-		for _, r := range s.Results {
-			parts = append(parts, t.expr(r))
-		}
-		if len(parts) == 1 {
-			return parts[0]
-		}
-		return "(" + strings.Join(parts, ", ") + ")"
-	case *ast.AssignStmt:
-		if len(s.Lhs) != len(s.Rhs) {
-			bail("multi-value assignment")
-		}
-		out := ""
-		for i := range s.Lhs {
-			id, ok := s.Lhs[i].(*ast.Ident)
-			if !ok {
-				bail("assignment to non-identifier")
-			}
-			rhs := t.expr(s.Rhs[i])
-			switch s.Tok {
-			case token.DEFINE, token.ASSIGN:
-			case token.ADD_ASSIGN:
-				rhs = "(" + id.Name + " + " + rhs + ")"
-			case token.SUB_ASSIGN:
-				rhs = "(" + id.Name + " - " + rhs + ")"
-			default:
-				bail("assignment op %s", s.Tok)
-			}
-			if id.Name == "_" {
-				continue
-			}
-			out += fmt.Sprintf("let %s := %s\n%s", id.Name, rhs, ind)
-		}
-		return out + rest()
-	case *ast.IncDecStmt:
-		id, ok := s.X.(*ast.Ident)
-		if !ok {
-			bail("inc/dec of non-identifier")
-		}
-		op := "+"
-		if s.Tok == token.DEC {
-			op = "-"
-		}
-		return fmt.Sprintf("let %s := (%s %s 1)\n%s", id.Name, id.Name, op, ind) + rest()
-	case *ast.DeclStmt:
-		gd, ok := s.Decl.(*ast.GenDecl)
-		if !ok || gd.Tok != token.VAR {
-			bail("declaration")
-		}
-		out := ""
-		for _, sp := range gd.Specs {
-			vs := sp.(*ast.ValueSpec)
-			for i, n := range vs.Names {
-				if len(vs.Values) > i {
-					out += fmt.Sprintf("let %s := %s\n%s", n.Name, t.expr(vs.Values[i]), ind)
-					continue
-				}
-				ty := t.leanType(t.p.info.Defs[n].Type())
-				zero := "0"
-				if ty == "Bool" {
-					zero = "false"
-				}
-				out += fmt.Sprintf("let %s : %s := %s\n%s", n.Name, ty, zero, ind)
-			}
-		}
-		return out + rest()
-	case *ast.IfStmt:
-		if s.Init != nil {
-			// "if x := e; cond" – hoist the init (shadowing is harmless in continuation style
-			// only when the name is not used after the if; require that by refusing reuse).
-			pre := t.stmts([]ast.Stmt{s.Init}, "«k»", ind)
-			body := t.ifStmt(s, list[1:], k, ind)
-			return strings.Replace(pre, "«k»", body, 1)
-		}
-		return t.ifStmt(s, list[1:], k, ind)
-	case *ast.SwitchStmt:
-		if s.Init != nil {
-			bail("switch with init")
-		}
-		after := ""
-		if len(list) > 1 || k != "" {
-			after = t.stmts(list[1:], k, ind+"  ")
-		}
-		var def *ast.CaseClause
-		type arm struct {
-			cond string
-			body []ast.Stmt
-		}
-		var arms []arm
-		for _, c := range s.Body.List {
-			cc := c.(*ast.CaseClause)
-			if cc.List == nil {
-				def = cc
-				continue
-			}
-			var conds []string
-			for _, e := range cc.List {
-				if s.Tag != nil {
-					conds = append(conds, "("+t.expr(s.Tag)+" == "+t.expr(e)+")")
-				} else {
-					conds = append(conds, t.expr(e))
-				}
-			}
-			arms = append(arms, arm{strings.Join(conds, " || "), cc.Body})
-		}
-		for _, a := range arms {
-			for _, st := range a.body {
-				if br, ok := st.(*ast.BranchStmt); ok {
-					bail("branch statement %s in switch", br.Tok)
-				}
-			}
-		}
-		out := ""
-		closeN := 0
-		for _, a := range arms {
-			out += fmt.Sprintf("if %s then\n%s  %s\n%selse ", a.cond, ind, t.stmts(a.body, after, ind+"  "), ind)
-			closeN++
-		}
-		if def != nil {
-			out += t.stmts(def.Body, after, ind+"  ")
-		} else {
-			if after == "" {
-				bail("switch without default falls through to end of function")
-			}
-			out += after
-		}
-		return out
-	case *ast.EmptyStmt:
-		return rest()
-	case *ast.ExprStmt:
-		// `_ = v` style no-ops only
-		bail("expression statement")
-	}
-	bail("statement %T", list[0])
-	return ""
-}
-
-func (t *tr) ifStmt(s *ast.IfStmt, tail []ast.Stmt, k string, ind string) string {
-	after := ""
-	if len(tail) > 0 || k != "" {
-		after = t.stmts(tail, k, ind+"  ")
-	}
-	thenS := t.stmts(s.Body.List, after, ind+"  ")
-	var elseS string
-	switch e := s.Else.(type) {
-	case nil:
-		if after == "" {
-			bail("if without else at end of function")
-		}
-		elseS = after
-	case *ast.BlockStmt:
-		elseS = t.stmts(e.List, after, ind+"  ")
-	case *ast.IfStmt:
-		elseS = t.ifStmt(e, nil, after, ind+"  ")
-	}
-	return fmt.Sprintf("if %s then\n%s  %s\n%selse\n%s  %s", t.expr(s.Cond), ind, thenS, ind, ind, elseS)
-}
-
-func emitFunc(sb *strings.Builder, p *pkgInfo, name string, status map[string]string) {
-	key := p.name + "." + name
-	var fd *ast.FuncDecl
-	for _, f := range p.files {
-		for _, d := range f.Decls {
-			if x, ok := d.(*ast.FuncDecl); ok && x.Recv == nil && x.Name.Name == name {
-				fd = x
-			}
-		}
-	}
-	if fd == nil {
-		status[key] = "missing"
-		fmt.Fprintf(sb, "-- UNTRANSLATABLE %s: function not found\n\n", key)
-		return
-	}
-	defer func() {
-		if r := recover(); r != nil {
-			u, ok := r.(untranslatable)
-			if !ok {
-				panic(r)
-			}
-			status[key] = "untranslatable: " + u.why
-			fmt.Fprintf(sb, "-- UNTRANSLATABLE %s: %s\n\n", key, u.why)
-		}
-	}()
-	t := &tr{p: p}
-	var params []string
-	for _, fl := range fd.Type.Params.List {
-		ty := t.leanType(p.info.Types[fl.Type].Type)
-		for _, n := range fl.Names {
-			params = append(params, fmt.Sprintf("(%s : %s)", n.Name, ty))
-		}
-	}
-	var res []string
-	pre := ""
-	if fd.Type.Results != nil {
-		for _, fl := range fd.Type.Results.List {
-			ty := t.leanType(p.info.Types[fl.Type].Type)
-			if len(fl.Names) == 0 {
-				res = append(res, ty)
-			}
-			for _, n := range fl.Names {
-				res = append(res, ty)
-				t.named = append(t.named, n.Name)
-				zero := "0"
-				if ty == "Bool" {
-					zero = "false"
-				}
-				pre += fmt.Sprintf("let %s : %s := %s\n  ", n.Name, ty, zero)
-			}
-		}
-	}
-	if len(res) == 0 {
-		bail("no results")
-	}
-	body := t.stmts(fd.Body.List, "", "  ")
-	var out strings.Builder
-	fmt.Fprintf(&out, "/-- translated from %s (%s) -/\n", key, filepath.Base(p.fset.Position(fd.Pos()).Filename))
-	fmt.Fprintf(&out, "def %s %s : %s :=\n  %s%s\n\n", leanName(p.name, name), strings.Join(params, " "), strings.Join(res, " × "), pre, body)
-	sb.WriteString(out.String())
-	status[key] = "ok"
 }
 
 // ---------- facts ----------
@@ -735,7 +369,22 @@ func leanStr(s string) string { return fmt.Sprintf("%q", s) }
 func main() {
 	repo := flag.String("repo", "/repo", "repository root")
 	out := flag.String("out", "", "output directory (lean/GoSecs/Gen)")
+	show := flag.String("show", "", "debugging: comma-separated function keys (rel.Func / rel.Type.Method) to translate and print")
 	flag.Parse()
+	if *show != "" {
+		imp.repo = *repo
+		repoRoot = *repo
+		g := newG()
+		for _, k := range strings.Split(*show, ",") {
+			o := g.translate(k)
+			if o.ok {
+				fmt.Print(o.text)
+			} else {
+				fmt.Printf("-- UNTRANSLATABLE %s: %s\n\n", k, o.why)
+			}
+		}
+		return
+	}
 	if *out == "" {
 		fmt.Fprintln(os.Stderr, "usage: go2lean -repo /repo -out DIR")
 		os.Exit(2)
@@ -744,6 +393,7 @@ func main() {
 		panic(err)
 	}
 	imp.repo = *repo
+	repoRoot = *repo
 	status := map[string]string{}
 	pkgs := map[string]*pkgInfo{}
 	for _, rel := range []string{"secs2", "hsms", "hsmsss", "secs1", "sml", "internal/wire"} {
@@ -765,22 +415,7 @@ func main() {
 	cs.WriteString("end GoSecs.Gen\n")
 	must(os.WriteFile(filepath.Join(*out, "Consts.lean"), []byte(cs.String()), 0o644))
 
-	var fs strings.Builder
-	fs.WriteString("-- GENERATED by tools/go2lean from /repo's working tree. Do not edit.\nimport GoSecs.GoPrelude\nnamespace GoSecs.Gen\n\n")
-	funcs := []struct{ pkg, name string }{
-		{"secs2", "headerLen"},
-		{"secs2", "clampInt64"},
-		{"secs2", "clampUint64"},
-		{"hsms", "transition"},
-		{"hsms", "IsValidSType"},
-		{"hsmsss", "linktestFailureStep"},
-		{"hsmsss", "linktestDisconnectRecheck"},
-	}
-	for _, f := range funcs {
-		emitFunc(&fs, pkgs[f.pkg], f.name, status)
-	}
-	fs.WriteString("end GoSecs.Gen\n")
-	must(os.WriteFile(filepath.Join(*out, "Funcs.lean"), []byte(fs.String()), 0o644))
+	emitFunctions(*out, status)
 
 	// facts
 	var ft strings.Builder
@@ -864,13 +499,22 @@ func main() {
 	js, _ := json.MarshalIndent(status, "", " ")
 	must(os.WriteFile(filepath.Join(*out, "status.json"), js, 0o644))
 	bad := 0
-	for k, v := range status {
-		if v != "ok" {
+	var keys []string
+	for k := range status {
+		keys = append(keys, k)
+	}
+	sort.Strings(keys)
+	ok := 0
+	for _, k := range keys {
+		switch v := status[k]; {
+		case strings.HasPrefix(v, "ok"):
+			ok++
+		case strings.HasPrefix(v, "untranslatable"):
 			fmt.Fprintf(os.Stderr, "go2lean: %s: %s\n", k, v)
 			bad++
 		}
 	}
-	fmt.Printf("go2lean: %d functions translated, %d not\n", len(status)-bad, bad)
+	fmt.Printf("go2lean: %d functions translated, %d not (%d probes outside the subset)\n", ok, bad, len(status)-ok-bad)
 }
 
 func must(err error) {
